@@ -6,6 +6,7 @@ import IpcModel.Router
 import IpcModel.Interleave.Core
 import IpcModel.RecvSetP
 import IpcModel.Ideal
+import IpcModel.Unix
 import IpcModel.Ledger.L
 import IpcModel.Timed
 import IpcModel.Async
@@ -440,6 +441,12 @@ def cmdIdeal (toks : List String) : String :=
   | none => "bad-request"
   | some ops => " ".intercalate ((Ideal.run ops).2.map idealResText)
 
+/-- the same program read at descriptor level (`Unix`): results, preceded by whether the program is valid -/
+def cmdUnix (toks : List String) : String :=
+  match (splitBar toks).filter (· ≠ []) |>.mapM parseIdealOp with
+  | none => "bad-request"
+  | some ops => (if Unix.valid ops then "valid " else "INVALID ") ++ " ".intercalate ((Unix.run ops).2.map idealResText)
+
 /-! ### descriptor ledger (C11 / C03): number of open library descriptors after each step of a history -/
 def ledgerStep (st : Ledger.St) (t : String) : Option Ledger.St :=
   match (t.splitOn " ").filter (· ≠ "") with
@@ -611,6 +618,7 @@ def answer (line : String) : String :=
   | "im" :: rest => cmdIm rest
   | "set" :: rest => cmdSet rest
   | "ideal" :: rest => cmdIdeal rest
+  | "unix" :: rest => cmdUnix rest
   | "ledger" :: rest => cmdLedger rest
   | "timed" :: rest => cmdTimed rest
   | "stream" :: rest => cmdStream rest
